@@ -8,6 +8,10 @@ MCStreams == {
   St(20, TRUE, "ok", 0, 5, {10, 21, 22, 25, 27}),
   St(1022, TRUE, "ok", 0, 0, {1000, 1023, 1024}),
   St(1023, TRUE, "ok", 0, 0, {1000, 1024, 1025}),
+  \* a maximal (1024-byte) line with further bytes in the same read; a line longer than 1024 BYTES that may be shorter in characters
+  St(1022, TRUE, "ok", 0, 3, {1024, 1025, 1027}),
+  St(1022, TRUE, "titan", 2, 2, {1024, 1026}),
+  St(1100, TRUE, "ok", 0, 0, {1024, 1025, 1101, 1102}),
   St(2000, TRUE, "ok", 0, 0, {1024, 1025, 2001, 2002}),
   St(1500, FALSE, "ok", 0, 0, {1024, 1025, 1500}),
   St(700, FALSE, "ok", 0, 0, {300, 700}),
